@@ -17,7 +17,7 @@ PROPS["C07"] = dict(
     thorough=[("asan", 16, 6000), ("plain0", 16, 6000), ("plain", 16, 6000), ("memcheck", 8, 20, {"budget": 900})],
     stack_mb=256,
     floors={"quick": {"kind_pairs": 400, "thrown_object_identity_checks": 48, "inner_handled_outer_normal": 1, "propagated_2_levels": 1, "throw_from_handler": 1,
-                      "uncaught_child_runs": 20, "lexical_programs": 100, "deep_nests": 4, "programs_run_in_a_second_thread": 300, "throws_of_an_expression_with_an_effect": 12}},
+                      "uncaught_child_runs": 20, "lexical_programs": 100, "deep_nests": 4, "programs_run_in_a_second_thread": 300, "throws_of_an_expression_with_an_effect": 12, "handlers_chosen_by_an_equal_but_distinct_filter_entry": 5}},
     rule="case = 1-4 generated try/throw/catch program trees (<=60 nodes, depth<=12, 8 filter sets over 4 exception "
          "kinds, throws from bodies, called functions and handlers) executed with the real macros, or one of 5 "
          "three-level lexical templates with random throw points; distinct = hash of the program text; non-trivial = "
@@ -64,7 +64,7 @@ PROPS["C02"] = dict(
                "tree's own Table.c by unity inclusion; derived quantities recomputed). Sequences are sampled.",
     quick=[("asan", 16, 40), ("plain", 8, 40)],
     thorough=[("asan", 16, 150), ("plain", 16, 400, {"env": {"VH_BIG": "1"}}), ("memcheck", 8, 3, {"budget": 900})],
-    floors={"quick": {"float_tables_with_both_zeros_as_keys": 300, "tables_queried_with_their_own_stored_values": 300, "single_entry_tables_with_the_entry_in_slot_0": 20, "tables_with_values_wider_than_keys": 50, "updates_of_displaced_key": 1, "wrapped_entries_observed": 1,
+    floors={"quick": {"float_tables_with_both_zeros_as_keys": 300, "float_tables_with_neighbouring_keys": 300, "tables_queried_with_their_own_stored_values": 300, "single_entry_tables_with_the_entry_in_slot_0": 20, "tables_with_values_wider_than_keys": 50, "updates_of_displaced_key": 1, "wrapped_entries_observed": 1,
                       "removals_shifting_back_2_or_more": 1, "rehash_grow": 5, "rehash_shrink": 5,
                       "set_after_resize0": 1, "distinct_slot_counts_seen": 5, "assign_from_tree": 1,
                       "copies": 1}},
@@ -133,7 +133,7 @@ PROPS["C16"] = dict(
     thorough=[("asan", 16, 6000), ("plain", 16, 20000), ("memcheck", 8, 30, {"budget": 900})],
     floors={"quick": {"formatted_writes_with_a_literal_percent": 200, "piece_lengths_swept": 400, "rem_at_start": 20, "rem_in_middle": 20, "rem_at_end": 20, "rem_overlapping_occurrences": 5,
                       "rem_first_of_several": 20, "rem_absent": 20, "empty_argument": 20,
-                      "argument_equal_to_target": 10, "resize_0": 10, "resize_grow": 20, "formatted_writes": 50}},
+                      "argument_equal_to_target": 10, "resize_0": 10, "resize_grow": 20, "formatted_writes": 50, "formatted_writes_of_a_shown_string": 500}},
     rule="case = one heap String driven through 25-75 (thorough: up to 145) random operations, all observables "
          "compared with the reference after each; distinct = hash of the operation list; non-trivial = more than 10 "
          "operations",
@@ -158,7 +158,7 @@ PROPS["C14"] = dict(
     thorough=[("asan", 16, 20000), ("plain", 16, 40000), ("memcheck", 8, 75, {"budget": 900})],
     floors={"quick": {"piece_length_sweep_points": 2560, "spec_at_very_start": 100, "spec_at_very_end": 100, "adjacent_specs": 100,
                       "nonzero_start_positions": 100, "file_sink_runs": 100, "too_few_argument_runs": 100,
-                      "items_show": 100, "items_float": 100, "items_int": 100, "items_string": 100, "shown_tuples_holding_one_object_twice": 100}},
+                      "items_show": 100, "items_float": 100, "items_int": 100, "items_string": 100, "shown_tuples_holding_one_object_twice": 100, "formats_writing_a_nul_character": 12}},
     rule="case = one generated format string of 1-7 items with its arguments, printed to a String at a chosen start "
          "position, to a File, and once with one argument too few; distinct = hash of the format text; non-trivial = "
          "at least two items and one argument",
@@ -240,7 +240,7 @@ PROPS["C17"] = dict(
     thorough=[("asan", 16, 600), ("plain", 16, 2000), ("memcheck", 8, 3, {"budget": 900})],
     floors={"quick": {"forced_collections": 50, "registry_walks_inside_sweep": 20, "registry_wrapped_entries": 1,
                       "registry_entries_displaced_2_or_more": 10, "explicit_deletions": 5, "explicit_deletions_while_stopped": 5,
-                      "root_holders_allocated": 5, "root_holders_deleted": 1, "allocations_made_by_destructors_during_a_sweep": 100, "allocations_made_by_destructors_outside_forced_collections": 100}},
+                      "root_holders_allocated": 5, "root_holders_deleted": 1, "allocations_made_by_destructors_during_a_sweep": 100, "allocations_made_by_destructors_outside_forced_collections": 100, "mem_queries_about_objects_set_aside_by_the_running_sweep": 200}},
     rule="case = one heap driven through 40-200 (thorough: up to 540) random mutator operations, registry walked "
          "every 4th operation, after every forced collection and inside sweeps; distinct = hash of the operation "
          "list; non-trivial = at least 20 operations",
@@ -267,7 +267,7 @@ PROPS["C06"] = dict(
                       "deletions_inside_stop_window": 10, "allocations_inside_stop_window": 10,
                       "worker_teardowns_with_live_garbage": 50, "process_teardowns_with_live_garbage": 50,
                       "del_root": 20, "del_raw": 20, "del_of_box": 10, "containers_of_boxes": 20,
-                      "forced_collections": 50, "forced_collections_inside_stop_window": 30, "garbage_objects_whose_destructors_allocate": 500, "held_objects_whose_destructors_allocate": 100, "rings_of_mutual_owners_collected": 20, "deep_copies_of_owners": 300, "deep_copies_deleted_by_hand": 80}},
+                      "forced_collections": 50, "forced_collections_inside_stop_window": 30, "garbage_objects_whose_destructors_allocate": 500, "held_objects_whose_destructors_allocate": 100, "rings_of_mutual_owners_collected": 10, "roots_referenced_by_other_roots_and_thread_local_storage": 20, "deep_copies_of_owners": 300, "deep_copies_deleted_by_hand": 80}},
     rule="case = 30-150 (thorough: up to 330) random allocation/deletion/ownership/collection/stop-start operations "
          "on the main thread, in a worker thread, or in a forked child process; distinct = hash of the operation "
          "list; non-trivial = at least 20 operations",
@@ -370,7 +370,7 @@ PROPS["C10"] = dict(
                "MurmurHash is not required - the statement asks for a function of the value.",
     quick=[("asan", 16, 150), ("plain", 8, 150)],
     thorough=[("asan", 16, 6000), ("plain", 16, 20000), ("memcheck", 8, 7, {"budget": 900})],
-    floors={"quick": {"near_miss_map_pairs": 5000, "assigns_onto_a_longer_tuple": 100, "cross_kind_sequence_assigns": 100, "sequences_cut_back_with_resize": 300, "lists_grown_with_resize": 100, "sized_map_history_groups": 1000, "sized_map_histories_value_wider_than_key": 200, "blob_swaps_size_not_multiple_of_8": 1000, "blob_array_sorts": 1000, "allocation_class_groups": 500, "signed_zero_pairs": 100, "cross_kind_equal_pairs": 2000,
+    floors={"quick": {"refs_to_nothing_copied": 300, "near_miss_map_pairs": 5000, "assigns_onto_a_longer_tuple": 100, "cross_kind_sequence_assigns": 100, "sequences_cut_back_with_resize": 300, "lists_grown_with_resize": 100, "sized_map_history_groups": 1000, "sized_map_histories_value_wider_than_key": 200, "blob_swaps_size_not_multiple_of_8": 1000, "blob_array_sorts": 1000, "allocation_class_groups": 500, "signed_zero_pairs": 100, "cross_kind_equal_pairs": 2000,
                       "sequence_history_groups": 500, "map_history_groups": 1000, "swaps": 2000,
                       "hash_data_alignment_sweeps": 500, "table_eq_reproducer_runs": 1}},
     rule="case = one group of scalar allocation classes, six equal sequences, two times three equal maps, a hash_data "
@@ -396,7 +396,7 @@ PROPS["C20"] = dict(
     floors={"quick": {"closed_file_probes": 200, "reads_past_the_end": 50, "zero_byte_writes": 20,
                       "writes_larger_than_a_stdio_buffer": 20, "seeks_from_start": 50, "seeks_from_current": 50,
                       "seeks_from_end": 50, "reopens_while_open": 50, "dels_of_open_files": 20, "with_blocks": 1,
-                      "text_roundtrips": 1, "record_wise_reads": 6, "stack_file_lifecycles": 3, "with_blocks_on_files_that_are_not_open": 4, "append_opens": 50, "formatted_writes": 50, "formatted_writes_with_an_empty_text_field": 200, "writes_refused_by_the_mode": 50, "reads_refused_by_the_mode": 50, "operations_checked_with_the_error_indicator_set": 100, "formatted_writes_with_a_literal_percent": 200, "reopens_through_the_constructor": 20, "failed_reopens_of_an_open_file": 20}},
+                      "text_roundtrips": 1, "record_wise_reads": 6, "stack_file_lifecycles": 3, "with_blocks_on_files_that_are_not_open": 4, "append_opens": 50, "formatted_writes": 50, "formatted_writes_with_an_empty_text_field": 200, "writes_refused_by_the_mode": 50, "reads_refused_by_the_mode": 50, "operations_checked_with_the_error_indicator_set": 100, "formatted_writes_with_a_literal_percent": 200, "reopens_through_the_constructor": 20, "failed_reopens_of_an_open_file": 20, "positions_beyond_2_gib_checked": 6}},
     rule="case = one File object driven through 20-80 (thorough: up to 140) random stream operations; distinct = hash "
          "of the operation list; non-trivial = at least 20 operations",
     assumptions=["one File object per case, one file on disk per shard", "offsets stay within the file"],
